@@ -31,6 +31,7 @@ import Ymq.Lemmas.KroneckerFft
 import Ymq.Lemmas.FIntFft
 import Ymq.Lemmas.FIntRoot
 import Ymq.Lemmas.CrtLemmas
+import Ymq.Lemmas.CrtEstimate
 import Ymq.Lemmas.PolyDft
 import Ymq.Lemmas.PolyZMod
 import Ymq.Lemmas.PolyMiddle
@@ -492,10 +493,10 @@ with `V < P/2`; the code keeps of each `c_i = P/p_i` the part above a scale `M`,
 If `Σ xs_i ≤ 2^64` and `2q + 3 ≤ hi`, the estimate is exactly `q`. The three branches of the code are
 the instances `M = W^(plen-2)` (`hi ≥ 2^8`), `M = 2^32·W^(plen-2)` (`hi ≥ 2^24`) and
 `M = 2^32·W^(plen-3)` (`hi ≥ 2^32`), with `q < w ≤ 26`.
-What is NOT proved (hence `_partial`): that the words read by the model `Ymq.Crt.qEstimate`
-(`crt[plen-1] << 32 | crt[plen-2] >> 32`, …) equal `c_i / M` for the primes of the table (no bits
-lost by the 64-bit shift), and `V < P/2` from `w = (2·bits + logsize)/58 + 1`; these are covered by
-the correspondence and oracle streams (`mzp_crt`, `mzp_redc`: all three branches, maximal load). -/
+This is the arithmetic core (hence `_partial`); `crt_q_estimate` below ties it to the words read by the
+model `Ymq.Crt.qEstimate` and to the tables of `MultiZmodP::new`. Still NOT proved: `V < P/2` from
+`w = (2·bits + logsize)/58 + 1` for the values `_crt` is called on (covered by `mzp_crt`, `mzp_redc`:
+all three branches, maximal load). -/
 theorem crt_q_estimate_partial {w : Nat} (P q V M hi Wd : Nat) (xs c : Fin w → Nat)
     (hM : 0 < M) (hWd : 0 < Wd) (hhi : 0 < hi)
     (hS : V + q * P = ∑ i, xs i * c i) (hV : 2 * V < P)
@@ -510,6 +511,26 @@ example : (∑ i : Fin 2, (if i.val = 0 then 96 else 15) * ((if i.val = 0 then 1
   crt_q_estimate_partial (w := 2) 10403 1 1000 2 40 128 (fun i => if i.val = 0 then 96 else 15)
     (fun i => if i.val = 0 then 103 else 101) (by decide) (by decide) (by decide) (by decide) (by decide)
     (by decide) (by decide) (by decide) (by decide)
+
+/-- **The quotient estimate of `_crt`, as the model reads the tables, is the CRT quotient.** For the
+context `m` built by the model of `MultiZmodP::new(zn, logsize)` from the translated prime table (any
+modulus and size it accepts, `w ≥ 2` primes; `w = 1` does not use the estimate), residues `xs_i < 2^59`,
+and `Σ xs_i·(P/p_i) = V + q·P` with `2V < P`, `q ≤ 25` (`crt_unique`: `q < w ≤ 26`): the model
+`Ymq.Crt.qEstimate` — branch selection on the top word of `P`, the reads
+`crt[plen-1] << 32 | crt[plen-2] >> 32` (no bits are lost by the shift), `crt[plen-2]`,
+`crt[plen-2] << 32 | crt[plen-3] >> 32`, the `u128` sums (no overflow), the divisor
+(`ptop >> 96`, `hi`, `ptop >> 32`, never zero) — reaches no panic site and returns exactly `q`.
+This ties `crt_q_estimate_partial` to the words the model reads (`qEstimate_spec`) and to the actual
+tables (`new_estOk`: `P` has exactly `plen` words, `crt_p[i]·p_i = P`, `p_i > 2^58`, three words when the
+top word is below `2^8`; decided on the table for every `w ≤ 26`). -/
+theorem crt_q_estimate (n logsize : Nat) (m : Ymq.Crt.Mzp) (hm : Ymq.Crt.new n logsize = some m)
+    (hw2 : 2 ≤ m.w) (xs : List Nat) (hxs : ∀ i, i < m.w → xs.getD i 0 < 2 ^ 59) (q V : Nat)
+    (hS : V + q * m.pprod = ∑ i ∈ range m.w, xs.getD i 0 * m.crtP.getD i 0)
+    (hV : 2 * V < m.pprod) (hq : q ≤ 25) : Ymq.Crt.qEstimate m xs = some q :=
+  Ymq.Crt.qEstimate_spec m (Ymq.Crt.new_estOk n logsize m hm hw2) xs hxs q V hS hV hq
+
+/-- non-vacuity: a 61-bit modulus at `logsize = 3` gets three primes -/
+example : (Ymq.Crt.new (2 ^ 61 - 1) 3).map (·.w) = some 3 := by decide +kernel
 
 /-- **The table `NTT_PRIMES`** (translated from the source on every run): the moduli are pairwise
 coprime (hypothesis of `crt_unique`), each is `≡ 1 (mod 2^49)` and lies in `(2^58, 2^59)`,
